@@ -5,6 +5,9 @@ import (
 	"encoding/hex"
 	"errors"
 	"fmt"
+	"sort"
+	"strconv"
+	"strings"
 	"sync"
 
 	ds "github.com/ipfs/go-datastore"
@@ -27,9 +30,33 @@ func newPrefixKV(kvStore ds.Batching, prefix string) ds.Batching {
 // BatchQueue implements a persistent queue for transaction batches
 type BatchQueue struct {
 	queue        []coresequencer.Batch
-	maxQueueSize int // maximum number of batches allowed in queue (0 = unlimited)
+	keys         []string // datastore key of each queued batch, parallel to queue
+	nextSeq      uint64   // sequence number used in the key of the next added batch
+	maxQueueSize int      // maximum number of batches allowed in queue (0 = unlimited)
 	mu           sync.Mutex
 	db           ds.Batching
+}
+
+// batchKey builds the datastore key of a batch: a zero-padded, monotonically increasing sequence
+// number followed by the batch hash. The sequence number keeps batches with identical contents
+// apart and lets Load restore the queue in the order the batches were added.
+func batchKey(seq uint64, hash []byte) string {
+	return fmt.Sprintf("%020d-%s", seq, hex.EncodeToString(hash))
+}
+
+// parseBatchKey extracts the sequence number from a key produced by batchKey.
+// It returns false for keys written by older versions (plain hex hash).
+func parseBatchKey(key string) (uint64, bool) {
+	name := ds.NewKey(key).Name()
+	idx := strings.IndexByte(name, '-')
+	if idx != 20 {
+		return 0, false
+	}
+	seq, err := strconv.ParseUint(name[:idx], 10, 64)
+	if err != nil {
+		return 0, false
+	}
+	return seq, true
 }
 
 // NewBatchQueue creates a new BatchQueue with the specified maximum size.
@@ -57,7 +84,7 @@ func (bq *BatchQueue) AddBatch(ctx context.Context, batch coresequencer.Batch) e
 	if err != nil {
 		return err
 	}
-	key := hex.EncodeToString(hash)
+	key := batchKey(bq.nextSeq, hash)
 
 	pbBatch := &pb.Batch{
 		Txs: batch.Transactions,
@@ -75,6 +102,8 @@ func (bq *BatchQueue) AddBatch(ctx context.Context, batch coresequencer.Batch) e
 
 	// Then add to in-memory queue
 	bq.queue = append(bq.queue, batch)
+	bq.keys = append(bq.keys, key)
+	bq.nextSeq++
 
 	return nil
 }
@@ -89,16 +118,12 @@ func (bq *BatchQueue) Next(ctx context.Context) (*coresequencer.Batch, error) {
 	}
 
 	batch := bq.queue[0]
+	key := bq.keys[0]
 	bq.queue = bq.queue[1:]
-
-	hash, err := batch.Hash()
-	if err != nil {
-		return &coresequencer.Batch{Transactions: nil}, err
-	}
-	key := hex.EncodeToString(hash)
+	bq.keys = bq.keys[1:]
 
 	// Delete the batch from the WAL since it's been processed
-	err = bq.db.Delete(ctx, ds.NewKey(key))
+	err := bq.db.Delete(ctx, ds.NewKey(key))
 	if err != nil {
 		// Log the error but continue
 		fmt.Printf("Error deleting processed batch: %v\n", err)
@@ -114,6 +139,8 @@ func (bq *BatchQueue) Load(ctx context.Context) error {
 
 	// Clear the current queue
 	bq.queue = make([]coresequencer.Batch, 0)
+	bq.keys = make([]string, 0)
+	bq.nextSeq = 0
 
 	q := query.Query{}
 	results, err := bq.db.Query(ctx, q)
@@ -121,6 +148,14 @@ func (bq *BatchQueue) Load(ctx context.Context) error {
 		return fmt.Errorf("error querying datastore: %w", err)
 	}
 	defer results.Close()
+
+	type entry struct {
+		key    string
+		seq    uint64
+		hasSeq bool
+		batch  coresequencer.Batch
+	}
+	var entries []entry
 
 	// Load each batch
 	for result := range results.Next() {
@@ -134,7 +169,27 @@ func (bq *BatchQueue) Load(ctx context.Context) error {
 			fmt.Printf("Error decoding batch for key '%s': %v. Skipping entry.\n", result.Key, err)
 			continue
 		}
-		bq.queue = append(bq.queue, coresequencer.Batch{Transactions: pbBatch.Txs})
+		seq, hasSeq := parseBatchKey(result.Key)
+		entries = append(entries, entry{key: ds.NewKey(result.Key).Name(), seq: seq, hasSeq: hasSeq, batch: coresequencer.Batch{Transactions: pbBatch.Txs}})
+	}
+
+	// Restore the order in which the batches were added. Entries written by older versions carry no
+	// sequence number; they predate all others and keep their key order.
+	sort.SliceStable(entries, func(i, j int) bool {
+		if entries[i].hasSeq != entries[j].hasSeq {
+			return !entries[i].hasSeq
+		}
+		if entries[i].hasSeq {
+			return entries[i].seq < entries[j].seq
+		}
+		return entries[i].key < entries[j].key
+	})
+	for _, e := range entries {
+		bq.queue = append(bq.queue, e.batch)
+		bq.keys = append(bq.keys, e.key)
+		if e.hasSeq && e.seq >= bq.nextSeq {
+			bq.nextSeq = e.seq + 1
+		}
 	}
 
 	return nil
